@@ -20,8 +20,9 @@
 #define ARCH_SET_CPUID 0x1012
 #endif
 
-enum { M_HOST = 0, M_NO_AVX2, M_NO_OSXSAVE, M_NO_AVX, M_MAXLEAF6, M_NO_SSE2, M_N };
-static const char *const mname[M_N] = {"host-truth", "no-AVX2-bit", "AVX2-bit-without-OSXSAVE", "AVX2-bit-without-AVX-bit", "max-leaf-6-intel-semantics-adversarial-EBX", "no-SSE2"};
+enum { M_HOST = 0, M_NO_AVX2, M_NO_OSXSAVE, M_NO_AVX, M_MAXLEAF6, M_NO_SSE2, M_XCR0_NO_YMM, M_XCR0_X87_ONLY, M_N };
+static const char *const mname[M_N] = {"host-truth", "no-AVX2-bit", "AVX2-bit-without-OSXSAVE", "AVX2-bit-without-AVX-bit", "max-leaf-6-intel-semantics-adversarial-EBX", "no-SSE2",
+                                        "OS-did-not-enable-YMM-state(XCR0=3,single-stepped)", "OS-enabled-x87-state-only(XCR0=1,single-stepped)"};
 
 static volatile int g_model = M_HOST;
 static volatile int g_trapping = 0;
@@ -62,6 +63,9 @@ static uint32_t host_xcr0(void)
     return lo;
 }
 /* what the served table implies (evaluated with trapping off) */
+/* XCR0 as the model's operating system presents it (XGETBV is emulated by single-stepping for the XCR0 models) */
+static uint32_t model_xcr0(int model) { return model == M_XCR0_NO_YMM ? 3u : (model == M_XCR0_X87_ONLY ? 1u : host_xcr0()); }
+
 static int expected_backend(int model, int is_s128)
 {
     uint32_t l0[4], l1[4], l7[4];
@@ -71,7 +75,7 @@ static int expected_backend(int model, int is_s128)
     avx2 = 0;
     if (l0[0] >= 7) {
         model_cpuid(model, 7, 0, l7);
-        avx2 = ((l7[1] >> 5) & 1) && ((l1[2] >> 27) & 1) && ((l1[2] >> 28) & 1) && ((host_xcr0() & 6) == 6);
+        avx2 = ((l7[1] >> 5) & 1) && ((l1[2] >> 27) & 1) && ((l1[2] >> 28) & 1) && ((model_xcr0(model) & 6) == 6);
     }
     if (is_s128 && avx2 && sse2 && build_has256) return BE_VEC256;
     if (sse2 && build_has128) return BE_VEC128;
@@ -98,6 +102,34 @@ static void segv_handler(int sig, siginfo_t *si, void *ucv)
     signal(sig, SIG_DFL);
     raise(sig);
 }
+/* ---- single-step monitor (EFLAGS.TF): emulates XGETBV for the XCR0 models and watches for VEX/EVEX-encoded
+ * instructions executed by the library while the emulated CPU/OS cannot execute them ---- */
+extern char __executable_start[], etext[];
+static volatile int g_step_xcr0_emulate, g_step_forbid_vex;
+static volatile uint32_t g_step_xcr0;
+static volatile uint64_t g_steps, g_xgetbv_events, g_vex_count, g_vex_first;
+static void trap_handler(int sig, siginfo_t *si, void *ucv)
+{
+    ucontext_t *uc = ucv; const uint8_t *ip = (const uint8_t *)uc->uc_mcontext.gregs[REG_RIP];
+    (void)sig; (void)si;
+    g_steps++;
+    if (ip[0] == 0x0F && ip[1] == 0x01 && ip[2] == 0xD0) {
+        g_xgetbv_events++;
+        if (g_step_xcr0_emulate) { uc->uc_mcontext.gregs[REG_RAX] = g_step_xcr0; uc->uc_mcontext.gregs[REG_RDX] = 0; uc->uc_mcontext.gregs[REG_RIP] += 3; }
+    } else if (g_step_forbid_vex && (const char *)ip >= __executable_start && (const char *)ip < etext && (ip[0] == 0xC4 || ip[0] == 0xC5 || ip[0] == 0x62)) {
+        if (!g_vex_count) g_vex_first = (uint64_t)(ip - (const uint8_t *)__executable_start);
+        g_vex_count++;
+    }
+}
+static void install_trap(void)
+{
+    struct sigaction sa; memset(&sa, 0, sizeof(sa));
+    sa.sa_sigaction = trap_handler; sa.sa_flags = SA_SIGINFO;
+    sigaction(SIGTRAP, &sa, NULL);
+}
+#define STEP_ON()  __asm__ volatile("pushfq\n\torq $0x100, (%%rsp)\n\tpopfq" ::: "memory", "cc")
+#define STEP_OFF() __asm__ volatile("pushfq\n\tandq $~0x100, (%%rsp)\n\tpopfq" ::: "memory", "cc")
+
 static int arm(void)
 {
     struct sigaction sa;
@@ -177,12 +209,16 @@ static void one_case(uint64_t idx)
     vh_rng_seed(&r, vh_seed, 0x13, idx);
     snprintf(d, sizeof(d), "{\"driver\":\"drv_cpuid\",\"prop\":\"C13\",\"seed\":%llu,\"case\":%llu,\"variant\":\"%s\"}", (unsigned long long)vh_seed, (unsigned long long)idx, vh_variant);
     if (!trapped) model = M_HOST;
+    int stepped = (model == M_XCR0_NO_YMM || model == M_XCR0_X87_ONLY);
+    int vex_watch = idx < 96;                     /* single-stepping costs ~3 us per instruction: only the first two sweeps */
+    if (stepped && idx >= 192) { VH_COUNT("single_step_models_skipped_after_four_sweeps", 1); return; }
+    int no_avx = (model == M_NO_OSXSAVE || model == M_NO_AVX || model == M_NO_SSE2 || stepped);
     snprintf(key, sizeof(key), "C13:%s:%s", INITS[fi].name, mname[model]);
     vh_case_begin(idx, key, d);
     exp_be = expected_backend(model, c->id == CIPH_S128);
     g_model = model;
     if (trapped && !arm()) { printf("{\"type\":\"inconclusive\",\"reason\":\"cannot enable CPUID faulting\"}\n"); fflush(stdout); _exit(3); }
-    for (rep = 0; rep < 24; ++rep) {
+    for (rep = 0; rep < (stepped ? 3 : 24); ++rep) {
         vh_handle h; int ret, be, i; const char *bad = NULL;
         for (i = 0; i < 8; ++i) g[i] = (rep < 10) ? small[(rep + i) % 10] : vh_rand(&r);
         if (rep < 10) g[0] = small[rep];
@@ -190,7 +226,8 @@ static void one_case(uint64_t idx)
         vh_paint_stack(rep & 1 ? 0xFF : -1, 20000);
         g_nev = 0;
         vh_call_begin(INITS[fi].name);
-        ret = vh_tramp(INITS[fi].fn, &h, g);
+        if (stepped) { g_step_xcr0 = model_xcr0(model); g_step_xcr0_emulate = 1; g_step_forbid_vex = 1; g_vex_count = 0; STEP_ON(); ret = vh_tramp(INITS[fi].fn, &h, g); STEP_OFF(); g_step_xcr0_emulate = 0; g_step_forbid_vex = 0; VH_COUNT("single_stepped_init_calls", 1); }
+        else ret = vh_tramp(INITS[fi].fn, &h, g);
         vh_call_end();
         VH_COUNT("init_calls", 1);
         VH_COUNT("cpuid_events_during_init", g_nev);
@@ -218,6 +255,22 @@ static void one_case(uint64_t idx)
             size_t want = (be == BE_VEC256) ? 8u * c->bb : 0;
             if (want && h.parallel_size != want) bad = "parallel_size-does-not-match-256-bit-back-end";
         }
+        if (!bad && ret && no_avx && trapped && rep == 1 && vex_watch) {
+            /* the emulated CPU/OS cannot execute AVX: single-step a whole life cycle on the object and make sure the library
+               (code in this executable, libc excluded) executes no VEX/EVEX-encoded instruction */
+            uint8_t kb[16], buf[300], tw[300]; vh_rand_bytes(&r, kb, 16); vh_rand_bytes(&r, buf, 300); vh_rand_bytes(&r, tw, 300);
+            g_step_xcr0 = model_xcr0(model); g_step_xcr0_emulate = stepped; g_step_forbid_vex = 1; g_vex_count = 0;
+            vh_call_begin("life cycle under VEX watch");
+            STEP_ON();
+            if (INITS[fi].par) { c->par_set_key(&h, kb, 16, 6, MANTIS_ENCRYPT); c->par_encrypt(buf, buf, tw, 10 * c->bb, &h); if (c->par_decrypt) c->par_decrypt(buf, buf, tw, 9 * c->bb, &h); }
+            else { c->ctr_set_key(&h, kb, 16, 6); c->ctr_set_counter(&h, kb, c->bb); c->ctr_encrypt(buf, buf, 150, &h); c->ctr_set_tweak(&h, tw, 8); c->ctr_encrypt(buf, buf, 33, &h); }
+            STEP_OFF();
+            vh_call_end();
+            g_step_forbid_vex = 0; g_step_xcr0_emulate = 0;
+            VH_COUNT("life_cycles_single_stepped_under_vex_watch", 1); VH_COUNT("instructions_single_stepped", g_steps); g_steps = 0;
+            if (g_vex_count) bad = "library-executed-AVX-encoded-instructions-on-a-cpu-or-os-without-AVX";
+        }
+        if (stepped && g_vex_count && !bad) bad = "library-executed-AVX-encoded-instructions-on-a-cpu-or-os-without-AVX";
         if (ret) { if (INITS[fi].par) c->par_cleanup(&h); else c->ctr_cleanup(&h); }
         { char cn[96]; snprintf(cn, sizeof(cn), "selected_%s_%s", be >= 0 ? vh_backend_names[be] : "none", mname[model]); *vh_counter_ref(cn) += 1; }
         if (vh_distinct(vh_hash(g, sizeof(g), VH_HASH_INIT + (uint64_t)fi * 64 + (uint64_t)model * 8 + (uint64_t)trapped))) VH_COUNT("distinct_calling_contexts", 1);
@@ -243,6 +296,7 @@ int main(int argc, char **argv)
     vh_init(argc, argv);
     (void)init_ctr;
     vh_guard_init();
+    install_trap();
     build_has128 = atoi(vh_getarg("has128", "1")); build_has256 = atoi(vh_getarg("has256", "1"));
     {   /* positive control of the CPUID monitor: a CPUID executed by the harness must be logged and answered by the model */
         uint32_t o[4];
